@@ -8,7 +8,9 @@ Stops:
   between-trials   a stop no handler sees, at every trial boundary (live), and every crash image of
                    the op log at which no file is open for writing
   kill-in-write    every crash image of the op log (mc/env_fs.py): every log prefix x byte offset of
-                   the interrupted write, materialised into a fresh sandbox
+                   the interrupted write, materialised into a fresh sandbox (bytes handed to write()
+                   taken as durable), plus the sandbox content as it really was on disk before every
+                   file-system event of the same run (user-space buffering as it really happened)
   interrupt        KeyboardInterrupt delivered live before/after every file-system operation, inside
                    writes and at every trial boundary, so that panqec's own handlers run; finalisers
                    are forced (gc) before the disk is read
@@ -25,6 +27,7 @@ Oracle (shares no code with panqec; files are read with json/gzip directly):
 """
 import copy
 import datetime as _datetime_mod
+import gc
 import gzip
 import hashlib
 import json
@@ -54,8 +57,9 @@ LEVEL_TEXT = ('Resume correctness is a property of (crash point x on-disk state 
 LEVEL_NOTE = ('Trusted: mc/env_fs.py (LoggedFS op log; its replay model is verified against real snapshots at every '
               'close/replace of every logged run), the counting wrapper around simulation.run, json/gzip of the '
               'standard library as reference reader. Crash model = process kill: bytes handed to write() are durable '
-              'and ordered (user-space buffering abstracted: a superset of the states of small files, the real '
-              'states of files larger than the buffer); power-loss reordering, concurrent writers and interrupts at '
+              'and ordered (the torn states of files larger than the stdio buffer); in addition the states really '
+              'on disk before each file-system event of the logged run (buffered small files) are restarted from; '
+              'power-loss reordering, concurrent writers and interrupts at '
               'points that are not file-system events or trial boundaries (arbitrary bytecode boundaries) are not '
               'covered. Quick tier: representative byte offsets only. Depth 2 starts from one representative per '
               '(file status, last completed save) class of first-stop states and uses representative offsets.')
@@ -63,8 +67,10 @@ RULE = ('cases = histories (container, n1<=n2, save_frequency, spec2 in {same,+r
         'within a case every stop point of the family is executed (thorough: every byte offset; quick: offsets '
         '{0,1,len-1,len} + every JSON token boundary to depth 3 / every gzip write boundary and the middle of the '
         'deflate block); a sub-case is the state (disk image, last completed save, trials produced so far) reached '
-        'by a stop; it is non-trivial when the sandbox holds at least one byte or a completed save exists, and '
-        'distinct by the SHA-1 of that state within its history')
+        'by a stop; it is non-trivial when the sandbox holds at least one file or a completed save exists, and '
+        'distinct by the SHA-1 of that state within its history (crash images: counted once over the whole run '
+        'whichever shard executes them; live stops: counted only by the shard that owns the digest, which can '
+        'under-count but never counts a state twice)')
 ASSUMPTIONS = [
     'process-kill crash model: bytes passed to write() are durable in order; no power-loss reordering',
     'single fault per run: one stop per execution, at most two stop/restart rounds per history',
@@ -84,7 +90,7 @@ BOUNDS = {
                  'depth2_offsets': 'classes(json depth 3)', 'depth2_n3': 'n2+1',
                  'plant': ['rate', 'size', 'noise', 'decoder', 'overlap']},
 }
-BUDGET_S = {'quick': 600, 'thorough': 5400}
+BUDGET_S = {'quick': 900, 'thorough': 7200}
 
 SEED_BASE = 20261002
 MARK = 9                       # impossible effective-error entry used in planted foreign records
@@ -283,6 +289,10 @@ def execute(root, container, variant, n, f, serial, inject=None, trace_disk=Fals
     old_stdout = sys.stdout
     sys.stdout = _Null()
     batch = None
+    # cyclic garbage (a leaked GzipFile is one) is finalised at a fixed moment - after the run, as at
+    # interpreter exit - instead of whenever the allocation counters happen to trigger a collection
+    gc_was_on = gc.isenabled()
+    gc.disable()
     try:
         with DetEnv(box), fs:
             try:
@@ -303,6 +313,8 @@ def execute(root, container, variant, n, f, serial, inject=None, trace_disk=Fals
                     rec['mem'][ident_of_sim(sim)] = norm_results(sim.results)
     finally:
         sys.stdout = old_stdout
+        if gc_was_on:
+            gc.enable()
     batch = None
     sim = None
     E.settle()                       # leaked writers flush and close now, before the disk is read
@@ -333,13 +345,18 @@ def _wrap(sim, fs, rec):
 
 
 # ----------------------------------------------------------------------------- states and stops
-def digest_state(image, out_rel, b0, lineage):
+def digest_lineage(lineage):
+    return hashlib.sha1(json.dumps(lineage, sort_keys=True).encode()).hexdigest()
+
+
+def digest_state(image, out_rel, b0, lineage_digest):
     h = hashlib.sha1()
-    h.update(repr(image.get(out_rel)).encode())
+    data = image.get(out_rel)
+    h.update(b'<absent>' if data is None else b'file:' + data)
     for data in sorted(v for k, v in image.items() if k != out_rel):
         h.update(b'|other|' + data)
     h.update(b'|b0|' + (b0 if b0 is not None else b'<none>'))
-    h.update(json.dumps(lineage, sort_keys=True).encode())
+    h.update(lineage_digest.encode())
     return h.hexdigest()[:16]
 
 
@@ -398,8 +415,19 @@ def stops_of_run(sb, container, variant, n, f, start, families, tier_offsets, se
     if 'kill' in families:
         use = None if tier_offsets['kill'] == 'all' else classes
         open_at = _open_sessions(log)
+        ldg = digest_lineage(lineage_full)
+        seen = set()           # over ALL crash states of this run, so that distinct ones are counted once
+        #                        whichever shard executes them
+
+        def fresh(image, b0):
+            dg = digest_state(image, out_rel, b0, ldg)
+            new = dg not in seen
+            seen.add(dg)
+            return dg, new
         for i, j, image in E.crash_images(log, image0, use):
             idx += 1
+            b0 = latest_save(saves, i, b0_0)
+            dg, new = fresh(image, b0)
             if not mine(idx):
                 continue
             in_write = j > 0 or open_at[i]
@@ -411,7 +439,7 @@ def stops_of_run(sb, container, variant, n, f, start, families, tier_offsets, se
                 where['offset_in_file'] = start_off + j
                 where['file_len_when_complete'] = len(s['content'])
             yield {'stop': 'kill-in-write' if in_write else 'between-trials', 'where': where, 'idx': idx,
-                   'image': image, 'b0': latest_save(saves, i, b0_0), 'lineage': lineage_full}
+                   'image': image, 'b0': b0, 'lineage': lineage_full, 'digest': dg, 'first': new}
 
         # the same kill points with user-space buffering as it really was in this execution
         ord2idx = {}
@@ -424,13 +452,15 @@ def stops_of_run(sb, container, variant, n, f, start, families, tier_offsets, se
                 continue
             prev = disk
             idx += 1
+            i = ord2idx.get(n_ord, len(log))
+            b0 = latest_save(saves, i, b0_0)
+            dg, new = fresh(disk, b0)
             if not mine(idx):
                 continue
-            i = ord2idx.get(n_ord, len(log))
             yield {'stop': 'kill-in-write' if open_at[i] else 'between-trials', 'idx': idx,
                    'where': {'log_index': i, 'event': log[i]['k'] if i < len(log) else 'end',
                              'log_len': len(log), 'crash_model': 'bytes as really on disk (buffered writes)'},
-                   'image': disk, 'b0': latest_save(saves, i, b0_0), 'lineage': lineage_full}
+                   'image': disk, 'b0': b0, 'lineage': lineage_full, 'digest': dg, 'first': new}
 
     live = []
     if 'between' in families:
@@ -612,7 +642,7 @@ SHARDS = {
     'quick': {('kill', 'json'): 4, ('kill', 'gz'): 1, ('interrupt', 'json'): 4, ('interrupt', 'gz'): 1,
               ('between', 'json'): 1, ('between', 'gz'): 1},
     'thorough': {('kill', 'json'): 16, ('kill', 'gz'): 4, ('interrupt', 'json'): 8, ('interrupt', 'gz'): 4,
-                 ('between', 'json'): 1, ('between', 'gz'): 1, ('depth2', 'json'): 12, ('depth2', 'gz'): 6},
+                 ('between', 'json'): 1, ('between', 'gz'): 1, ('depth2', 'json'): 6, ('depth2', 'gz'): 3},
 }
 
 
@@ -633,7 +663,13 @@ def cases(tier, seed):
                         for s in range(m):
                             out.append({'family': fam, 'container': container, 'n1': n1, 'n2': n2,
                                         'save_frequency': f, 'spec2': spec2, 'shard': s, 'of': m, 'tier': tier})
-    return out
+    # one case of every (family, container) first, so that the samples written to the evidence file show
+    # every kind of history; otherwise simplest first
+    first = {}
+    for i, c in enumerate(out):
+        first.setdefault((c['family'], c['container']), i)
+    lead = sorted(first.values(), key=lambda i: (out[i]['container'] != 'json', i))
+    return [out[i] for i in lead] + [c for i, c in enumerate(out) if i not in set(lead)]
 
 
 def eval_case(case):
@@ -660,6 +696,7 @@ class _Acc:
         self.outcomes = set()
         self.emitted = set()
         self.cache = {}
+        self.fallback_sample = True
 
     def key(self, kind, stop, exc, f):
         return {'kind': kind, 'container': self.case['container'], 'stop': stop, 'exc': exc,
@@ -688,9 +725,16 @@ def _judge_stop(acc, sb, case, st, variant2, n2, f, serial, depth, chain=None):
     out_rel = out_name(container)
     acc.res['extra']['stop_points'] += 1
     acc.res['evals'] += 1
-    dg = digest_state(st['image'], out_rel, st['b0'], st['lineage'])
-    if st['image'] or st['b0'] is not None:
-        acc.states.add(dg)
+    nontrivial = bool(st['image']) or st['b0'] is not None
+    if 'digest' in st:                    # crash image: distinctness decided over the whole run
+        dg = st['digest']
+        if nontrivial and st['first']:
+            acc.states.add((st.get('start'), dg))
+    else:                                 # live stop: other shards may reach the same state; count it in one
+        dg = digest_state(st['image'], out_rel, st['b0'], digest_lineage(st['lineage']))
+        m = case.get('of', 1)
+        if nontrivial and (m == 1 or int(dg, 16) % m == case.get('shard', 0)):
+            acc.states.add((st.get('start'), dg))
     ck = (dg, variant2, n2, f)
     if ck in acc.cache:
         acc.res['extra']['restarts_reused_same_state'] += 1
@@ -700,6 +744,18 @@ def _judge_stop(acc, sb, case, st, variant2, n2, f, serial, depth, chain=None):
         acc.res['extra']['restarts'] += 1
         acc.cache[ck] = (viol, outcome)
     acc.outcomes.add('%s|%s|n2=%d|%s' % (st['stop'], variant2, n2, outcome))
+    if not acc.res['samples'] or acc.fallback_sample:
+        smp = {'family': case['family'], 'container': container,
+               'history': {'run1': ['base', case.get('n1')], 'restart': [variant2, n2], 'save_frequency': f,
+                           'depth': depth},
+               'stop': st['stop'], 'stopped_at': st['where'],
+               'file_bytes_on_disk': None if out_rel not in st['image'] else len(st['image'][out_rel]),
+               'last_completed_save_bytes': None if st['b0'] is None else len(st['b0']),
+               'restart_verdict': outcome}
+        good = st['b0'] is not None and st['stop'] != 'between-trials'
+        if not acc.res['samples'] or good:
+            acc.res['samples'] = [smp]
+            acc.fallback_sample = not good
     for kind, exc, detail in viol:
         det = {'history': {'n1': case.get('n1'), 'n2': n2, 'spec2': variant2, 'depth': depth},
                'stopped_at': st['where'], 'file_bytes_on_disk': None if out_rel not in st['image']
@@ -723,12 +779,7 @@ def _eval_depth1(case, sb):
             acc.add('first-run-raises', 'none', st['probe_raised'][0], f, {'message': st['probe_raised'][1]})
             acc.res['evals'] += 1
             break
-        idx = st['idx']
         _judge_stop(acc, sb, case, st, case['spec2'], case['n2'], f, serial=100000, depth=1)
-        if len(acc.res['samples']) < 2 and (idx // case['of']) in (3, 40):
-            acc.res['samples'].append({'stop': st['stop'], 'where': st['where'],
-                                       'file_bytes': len(st['image'].get(out_name(container), b'')),
-                                       'completed_save_bytes': None if st['b0'] is None else len(st['b0'])})
     return acc.finish()
 
 
@@ -774,6 +825,7 @@ def _eval_depth2(case, sb):
             idx += 1
             if idx % case['of'] != case['shard']:
                 continue
+            st2['start'] = rep_no
             _judge_stop(acc, sb, case, st2, case['spec2'], case['n2'] + 1, f, serial=200000, depth=2,
                         chain=chain)
     return acc.finish()
@@ -790,5 +842,4 @@ def _eval_plant(case, sb):
                   'image': {out_name(container): data}, 'b0': data, 'lineage': lineage}
             for variant2 in ('same', 'rate'):
                 _judge_stop(acc, sb, dict(case, n1=n_p), st, variant2, n2, f, serial=100000, depth=1)
-    acc.res['samples'].append({'planted': foreign, 'container': container})
     return acc.finish()
